@@ -1818,6 +1818,9 @@ vbi_dvb_mux_cor		(vbi_dvb_mux *		mx,
 			*sliced = s;
 			*sliced_left = s_left;
 			mx->cor_end = 0;
+			/* The frame is discarded, do not continue a
+			   partially encoded raw VBI line in the next. */
+			mx->raw_samples_left = 0;
 			/* errno = VBI_ERR_BUFFER_OVERFLOW; */
 			return FALSE;
 		}
@@ -2005,6 +2008,9 @@ vbi_dvb_mux_feed		(vbi_dvb_mux *		mx,
 	}
 
 	if (unlikely (s_left > 0)) {
+		/* The frame is discarded, do not continue a
+		   partially encoded raw VBI line in the next. */
+		mx->raw_samples_left = 0;
 		/* errno = VBI_ERR_BUFFER_OVERFLOW; */
 		return FALSE;
 	}
